@@ -76,7 +76,7 @@ def build_text(prog, variant):
     em._seq(prog, body_lines, "  ", [])
     pre, post = [], []
     args = [f"%a : {MT}", f"%b : {MT}"]
-    if variant == "arg":
+    if variant == "arg" or variant.startswith("cfor"):
         args.append(f"%c : {MT}")
     elif variant == "alloc":
         pre.append(f"  %c = memref.alloc() : {MT}")
@@ -102,6 +102,12 @@ def build_text(prog, variant):
     args += [f"%c{k} : i1" for k in range(em.nif)] + [f"%n{k} : index" for k in range(em.nfor)]
     text = "builtin.module {\nfunc.func @f(" + ", ".join(args) + ") {\n  %zero = arith.constant 0 : index\n  %one = arith.constant 1 : index\n"
     text += "\n".join(pre + body_lines + post) + "\n  func.return\n}\n}\n"
+    if variant.startswith("cfor"):
+        # compile-time loop bounds (lb, ub, step): two iterations with a partial last step, exactly one, an exact multiple
+        lb, ub, st = {"cfor64": (0, 6, 4), "cfor44": (0, 4, 4), "cfor84": (0, 8, 4), "cfor173": (1, 7, 3)}[variant]
+        text = text.replace("  %one = arith.constant 1 : index\n", f"  %one = arith.constant 1 : index\n  %klb = arith.constant {lb} : index\n  %kub = arith.constant {ub} : index\n  %kst = arith.constant {st} : index\n", 1)
+        for k in range(em.nfor):
+            text = text.replace(f"= %zero to %n{k} step %one {{", "= %klb to %kub step %kst {")
     return text, em.nfor, em.nif
 
 
@@ -135,6 +141,8 @@ def space(tier):
     for p in progs:
         uses_c = ST.count(p, lambda s: s[0] in ("D", "C") and "c" in s[1:]) > 0
         out.append((p, "arg"))
+        if ST.nfor(p) and ST.count(p, lambda s: s[0] in ("D", "C")) <= 2:
+            out += [(p, v) for v in ("cfor64", "cfor44", "cfor84", "cfor173")]
         if tier == "quick" and ST.nif(p):
             # conditionals: plain arguments and the two-alias variant only
             if ST.count(p, lambda s: s[0] in ("D", "C") and "c" in s[1:]) >= 2:
@@ -208,7 +216,7 @@ def make_args(variant, trips, conds):
     a = View(("a", 0), 4, 0, [8], [1], 0x1000)
     b = View(("b", 0), 4, 0, [8], [1], 0x2000)
     args = [a, b]
-    if variant in ("arg", "sv3"):
+    if variant in ("arg", "sv3") or variant.startswith("cfor"):
         args.append(View(("c", 0), 4, 0, [8], [1], 0x3000))
     elif variant in ("sv", "sv2"):
         args.append(View(("c", 0), 4, 0, [16], [1], 0x3000))
@@ -239,7 +247,8 @@ def evaluate(case, only=None, tier=None) -> CaseResult:
     r.count("barriers_inserted", out_text.count("snax.cluster_sync_op") - text.count("snax.cluster_sync_op"))
     init = {"a": ("init", "a"), "b": ("init", "b"), "c": ("init", "c")}
     obs_all = []
-    for trips, conds in itertools.product(itertools.product(b["trips"], repeat=nfor), itertools.product((1, 0), repeat=nif)):
+    trip_menu = [0] if variant.startswith("cfor") else b["trips"]
+    for trips, conds in itertools.product(itertools.product(trip_menu, repeat=nfor), itertools.product((1, 0), repeat=nif)):
         if only is not None and (list(trips) != only[0] or list(conds) != only[1]):
             continue
         args = make_args(variant, trips, conds)
